@@ -397,6 +397,7 @@ func (e *Engine) join(st *State, site string) {
 		R = 2
 	}
 	// 1. run thread bodies
+	baseHeap := cloneHeap(st.Heap)
 	finals := make([]*State, len(e.Threads))
 	for _, th := range e.Threads {
 		ts := &State{G: st.G, Heap: cloneHeap(st.Heap), Th: th}
@@ -577,28 +578,35 @@ func (e *Engine) join(st *State, site string) {
 		st.Heap[r.Obj] = nb
 		stats.Cells += r.Obj.N
 	}
-	// thread-local results: adopt objects changed/created by exactly one thread
-	changedBy := map[*Obj]int{}
+	// thread-local results: objects changed/created by threads are merged back leaf by leaf
+	// (a leaf written by two threads is an error: such data must live in a shared region).
 	for _, th := range e.Threads {
 		fs := finals[th.ID]
 		for o, v := range fs.Heap {
 			if o.Shared != nil {
 				continue
 			}
-			if mv, ok := st.Heap[o]; ok {
-				if !identical(mv, v) {
-					if prev, dup := changedBy[o]; dup && prev != th.ID {
-						panic(e.unsupported(fmt.Sprintf("object %s written by threads %d and %d but not shared", o, prev, th.ID)))
-					}
-					changedBy[o] = th.ID
-				}
-			} else {
-				changedBy[o] = th.ID
+			if _, isBase := baseHeap[o]; !isBase {
+				st.Heap[o] = v
+				continue
 			}
+			bv := baseHeap[o]
+			if identical(bv, v) {
+				continue
+			}
+			cur := st.Heap[o]
+			bval, ok1 := bv.(Value)
+			tval, ok2 := v.(Value)
+			cval, ok3 := cur.(Value)
+			if !ok1 || !ok2 || !ok3 {
+				if identical(cur, bv) {
+					st.Heap[o] = v
+					continue
+				}
+				panic(e.unsupported(fmt.Sprintf("object %s written by several threads but not shared", o)))
+			}
+			st.Heap[o] = e.merge3(bval, cval, tval, o)
 		}
-	}
-	for o, t := range changedBy {
-		st.Heap[o] = finals[t].Heap[o]
 	}
 	st.G = c.And(st.G, fin)
 	e.Stats = stats
@@ -613,4 +621,37 @@ func sameContent(a, b interface{}) bool {
 		return sameValue(av, bv)
 	}
 	return false
+}
+
+// merge3 merges a thread's version t of an object into cur, relative to the common base.
+func (e *Engine) merge3(base, cur, t Value, o *Obj) Value {
+	if sameValue(base, t) {
+		return cur
+	}
+	if sameValue(base, cur) {
+		return t
+	}
+	switch b := base.(type) {
+	case StructV:
+		cv, ok1 := cur.(StructV)
+		tv, ok2 := t.(StructV)
+		if ok1 && ok2 && len(cv.F) == len(b.F) && len(tv.F) == len(b.F) {
+			out := make([]Value, len(b.F))
+			for i := range out {
+				out[i] = e.merge3(b.F[i], cv.F[i], tv.F[i], o)
+			}
+			return StructV{out}
+		}
+	case ArrayV:
+		cv, ok1 := cur.(ArrayV)
+		tv, ok2 := t.(ArrayV)
+		if ok1 && ok2 && len(cv.E) == len(b.E) && len(tv.E) == len(b.E) {
+			out := make([]Value, len(b.E))
+			for i := range out {
+				out[i] = e.merge3(b.E[i], cv.E[i], tv.E[i], o)
+			}
+			return ArrayV{out}
+		}
+	}
+	panic(e.unsupported(fmt.Sprintf("object %s: the same field is written by several threads but is not in a shared region", o)))
 }
